@@ -143,7 +143,7 @@ func oracleHTTPServer(t failer, sel uint8, frag uint16, client, origin []byte) (
 		t.Fatalf("SIG=C06/http-server-empty-request VERIF-VIOLATION HandleStream returned no error and no request: %s", desc())
 	}
 	res := useAddr(t, recHTTPServer, "http-server", req.Addr, req.Username, false)
-	out = oracleResult{true, req.Addr, req.Username, res}
+	out = oracleResult{accepted: true, addr: req.Addr, user: req.Username, use: res}
 	form := "plain"
 	if bytes.HasPrefix(bytes.TrimLeft(client, "\r\n"), []byte("CONNECT")) {
 		form = "connect"
@@ -191,8 +191,13 @@ func oracleHTTPServer(t failer, sel uint8, frag uint16, client, origin []byte) (
 			select {
 			case n := <-got:
 				wrote = n > 0
+				out.originGot = n
 			case <-time.After(completionBound / 3):
 				stuck = true
+			}
+			out.forwarded, out.stuck = true, stuck
+			if !stuck {
+				out.clientGot = written(srv)
 			}
 			return
 		}
